@@ -175,14 +175,31 @@ func (sh shape) expected(streamNS string, s2s bool, selfFrom string, idByCaller 
 
 // ---- value forms
 
+// liveSource: readers handed to the library are xml.Decoders over the
+// serialized form instead of token slices. A decoder's character data is only
+// valid until its next Token call, as with a stored payload that is re-parsed
+// or a stream that is proxied.
+var liveSource bool
+
+func reader(toks []xml.Token) xml.TokenReader {
+	if !liveSource {
+		return &xu.SliceReader{Toks: toks}
+	}
+	b, err := xu.Render(&xu.SliceReader{Toks: toks})
+	if err != nil {
+		panic("c05: rendering a source failed: " + err.Error())
+	}
+	return xml.NewDecoder(strings.NewReader(string(b)))
+}
+
 type marshalerVal struct{ toks []xml.Token }
 
-func (m marshalerVal) TokenReader() xml.TokenReader { return &xu.SliceReader{Toks: m.toks} }
+func (m marshalerVal) TokenReader() xml.TokenReader { return reader(m.toks) }
 
 type writerToVal struct{ toks []xml.Token }
 
 func (m writerToVal) WriteXML(w xmlstream.TokenWriter) (int, error) {
-	return xmlstream.Copy(w, &xu.SliceReader{Toks: m.toks})
+	return xmlstream.Copy(w, reader(m.toks))
 }
 
 // structVal is encoded by encoding/xml.
@@ -223,21 +240,43 @@ func (sh shape) otherOuter() []xml.Token {
 	return append(t, st.End())
 }
 
-func doTransmit(s *xmpp.Session, form string, sh shape, streamNS string) (err error, applicable bool) {
+// prebuilt holds the argument values of a call, so that a history can hand the
+// very same values (sharing their attribute slices) to several calls.
+type prebuilt struct {
+	start xml.StartElement
+	toks  []xml.Token
+}
+
+func (sh shape) prebuild(streamNS string) *prebuilt {
+	st := sh.start(streamNS)
+	// spare capacity, as attribute lists built by append usually have
+	st.Attr = append(make([]xml.Attr, 0, len(st.Attr)+4), st.Attr...)
+	toks := sh.tokens(streamNS)
+	if first, ok := toks[0].(xml.StartElement); ok {
+		first.Attr = append(make([]xml.Attr, 0, len(first.Attr)+4), first.Attr...)
+		toks[0] = first
+	}
+	return &prebuilt{start: st, toks: toks}
+}
+
+func doTransmit(s *xmpp.Session, form string, sh shape, streamNS string, pre ...*prebuilt) (err error, applicable bool) {
 	ctx := context.Background()
 	toks := sh.tokens(streamNS)
-	inner := func() xml.TokenReader { return &xu.SliceReader{Toks: innerTokens(sh.inner())} }
+	inner := func() xml.TokenReader { return reader(innerTokens(sh.inner())) }
 	start := sh.start(streamNS)
+	if len(pre) > 0 {
+		start, toks = pre[0].start, pre[0].toks
+	}
 	plainNS := sh.ns == "" || sh.ns == "STREAM"
 	switch form {
 	case "Send":
-		return s.Send(ctx, &xu.SliceReader{Toks: toks}), true
+		return s.Send(ctx, reader(toks)), true
 	case "Send(reader-with-a-second-element)":
 		// Send transmits the first element of the reader: what follows it in the
 		// reader (eg. the next stanza of a queue that is relayed one Send at a
 		// time) is not part of this call
 		second := xml.StartElement{Name: xml.Name{Local: "presence"}, Attr: []xml.Attr{{Name: xml.Name{Local: "id"}, Value: "second-element"}}}
-		return s.Send(ctx, &xu.SliceReader{Toks: append(append([]xml.Token{}, toks...), second, second.End())}), true
+		return s.Send(ctx, reader(append(append([]xml.Token{}, toks...), second, second.End()))), true
 	case "SendElement":
 		return s.SendElement(ctx, inner(), start), true
 	case "TokenWriter":
@@ -258,7 +297,7 @@ func doTransmit(s *xmpp.Session, form string, sh shape, streamNS string) (err er
 		}
 		return s.Encode(ctx, sh.structValue(streamNS)), true
 	case "Encode(TokenReader)":
-		return s.Encode(ctx, xml.TokenReader(&xu.SliceReader{Toks: toks})), true
+		return s.Encode(ctx, reader(toks)), true
 	case "Encode(Marshaler)":
 		return s.Encode(ctx, marshalerVal{toks}), true
 	case "Encode(WriterTo)":
@@ -302,7 +341,7 @@ func doTransmit(s *xmpp.Session, form string, sh shape, streamNS string) (err er
 	}
 	switch form {
 	case "SendIQ":
-		_, err = s.SendIQ(ctx, &xu.SliceReader{Toks: toks})
+		_, err = s.SendIQ(ctx, reader(toks))
 	case "SendIQElement", "EncodeIQElement":
 		if sh.from != 0 || sh.id == 1 {
 			return nil, false // the typed header cannot express an empty attribute
@@ -316,7 +355,7 @@ func doTransmit(s *xmpp.Session, form string, sh shape, streamNS string) (err er
 	case "EncodeIQ":
 		_, err = s.EncodeIQ(ctx, marshalerVal{toks})
 	case "SendMessage":
-		_, err = s.SendMessage(ctx, &xu.SliceReader{Toks: toks})
+		_, err = s.SendMessage(ctx, reader(toks))
 	case "SendMessageElement", "EncodeMessageElement":
 		if sh.from != 0 || sh.id == 1 {
 			return nil, false
@@ -330,7 +369,7 @@ func doTransmit(s *xmpp.Session, form string, sh shape, streamNS string) (err er
 	case "EncodeMessage":
 		_, err = s.EncodeMessage(ctx, marshalerVal{toks})
 	case "SendPresence":
-		_, err = s.SendPresence(ctx, &xu.SliceReader{Toks: toks})
+		_, err = s.SendPresence(ctx, reader(toks))
 	case "SendPresenceElement", "EncodePresenceElement":
 		if sh.from != 0 || sh.id == 1 {
 			return nil, false
@@ -349,7 +388,21 @@ func doTransmit(s *xmpp.Session, form string, sh shape, streamNS string) (err er
 	return err, true
 }
 
-func shapesBody(c *nd.Ctx) nd.Result {
+func shapesBody(c *nd.Ctx) nd.Result { liveSource = false; return shapesBodyN(c, 1) }
+
+// liveBody: the same product with readers that are live decoders.
+func liveBody(c *nd.Ctx) nd.Result {
+	liveSource = true
+	defer func() { liveSource = false }()
+	return shapesBodyN(c, 1)
+}
+
+// reuseBody: the same argument values (start element, token list) are handed
+// to two consecutive calls, as an application does that keeps a start element
+// or a stored stanza around; the second call is judged like the first.
+func reuseBody(c *nd.Ctx) nd.Result { liveSource = false; return shapesBodyN(c, 2) }
+
+func shapesBodyN(c *nd.Ctx, calls int) (res nd.Result) {
 	role := c.Choose(4, "stream") // 0 client-to-server, 1 server-to-server initiated by us, 2 server-to-server received, 3 the same established by the default negotiator (addresses learned from the peer's header)
 	s2s := role != 0
 	form := forms[c.Choose(len(forms), "form")]
@@ -385,12 +438,48 @@ func shapesBody(c *nd.Ctx) nd.Result {
 	var terr error
 	var applicable bool
 	before := rw.Out.Len()
-	pn := nd.Catch(func() { terr, applicable = doTransmit(s, form, sh, streamNS) })
+	var pn *nd.Panic
+	tag := ""
+	if liveSource && (sh.xmlnsAttr || sh.payload == 2 || form == "Encode(WriterTo)") {
+		// a decoder reports the declaration as an attribute by itself;
+		// Encode(WriterTo) is the known finding of the shapes part
+		return nd.Result{Skip: true}
+	}
+	if liveSource {
+		tag = "live-source:"
+		desc += " (readers are live decoders)"
+	}
+	if calls == 1 {
+		pn = nd.Catch(func() { terr, applicable = doTransmit(s, form, sh, streamNS) })
+	} else {
+		if sh.payload == 2 || form == "Encode(WriterTo)" {
+			// the size of the content plays no part in what is reused;
+			// Encode(WriterTo) is the known finding of the shapes part (nothing is flushed)
+			return nd.Result{Skip: true}
+		}
+		pre := sh.prebuild(streamNS)
+		tag = "reused-arguments:"
+		desc += fmt.Sprintf(" (call %d of %d with the same argument values)", calls, calls)
+		pn = nd.Catch(func() {
+			for i := 0; i < calls; i++ {
+				before = rw.Out.Len()
+				terr, applicable = doTransmit(s, form, sh, streamNS, pre)
+				if terr != nil || !applicable {
+					return
+				}
+			}
+		})
+	}
 	if pn == nil && !applicable {
 		return nd.Result{Skip: true}
 	}
 	c.Note("%s", desc)
-	res := nd.Result{Outcome: form, NonTrivial: desc}
+	res = nd.Result{Outcome: form, NonTrivial: desc}
+	defer func() {
+		if res.Violation != nil && tag != "" {
+			res.Violation.Sig = tag + res.Violation.Sig
+		}
+	}()
 	if pn != nil {
 		res.Violation = &nd.Violation{Sig: "transmit:" + pn.Sig(), Msg: desc + ": panic " + pn.Value + "\n" + pn.Stack}
 		return res
@@ -462,7 +551,9 @@ func init() {
 		Assumptions: []string{"elements in a foreign namespace are only required to arrive whole and unaltered", "generated ids match any non-empty value", "comparison is on parsed trees (namespace declarations are not attributes)"},
 		Parts: func(tier string) []drv.Part {
 			b := 4 * time.Minute
-			return append([]drv.Part{{Name: "shapes", Body: shapesBody, CutDepth: 3, Budget: b}, {Name: "closed-writer", Desc: "a token writer used again after Close", Body: closedWriterBody, CutDepth: 2, Workers: 2, Budget: b}}, concurrentParts(tier)...)
+			return append([]drv.Part{{Name: "shapes", Body: shapesBody, CutDepth: 3, Budget: b}, {Name: "closed-writer", Desc: "a token writer used again after Close", Body: closedWriterBody, CutDepth: 2, Workers: 2, Budget: b},
+				{Name: "live-sources", Desc: "the readers and values handed to the entry points produce their tokens from a live xml.Decoder (character data valid until the next token only)", Body: liveBody, CutDepth: 3, Budget: b},
+				{Name: "reused-arguments", Desc: "two consecutive calls given the very same start element / token list values; the second call is judged", Body: reuseBody, CutDepth: 3, Budget: b}}, concurrentParts(tier)...)
 		},
 	})
 }
